@@ -714,6 +714,10 @@ func checkC14(p *core.Program, r *core.Report) {
 	r.Floor(R3, 1)
 	r.Floor(R4, 2)
 	_ = fmt.Sprint
+	// R8 (kept last: C04 imports C14.R1-R3 in turn)
+	const R8 = "C14.R8 close-stops-the-timer"
+	r.Rule(R8, "whenever the connection's close routine runs - for every state and every kind of close - the handshake timer is stopped (shared with C04.R3, decided on the extracted automaton): a timer left armed by a close expires later and delivers a timeout to a connection that has ended")
+	importRules(p, r, "C04", map[string]string{"C04.R3 no-timer-left-armed": R8}, nil)
 }
 
 const token_EQL = token.EQL
@@ -760,7 +764,7 @@ func checkPhaseTimers(p *core.Program, r *core.Report, R6 string) {
 		r.Unresolved(R6, "initial handshake state stored by the ShipConnection constructor")
 		return
 	}
-	strip := func(c cfgT) cfgT { c.trusted, c.closing, c.armed = false, false, false; return c }
+	strip := func(c cfgT) cfgT { c.trusted, c.closing, c.armed, c.moved = false, false, false, false; return c }
 	byInit := map[cfgT][]entryResult{}
 	for _, er := range fr.results {
 		byInit[er.init] = append(byInit[er.init], er)
